@@ -177,14 +177,6 @@ theorem findBlock_dce {tbl : Opcode → Eff} {f : Func} {L : List Val} (b : Bloc
   · intro B
     by_cases hB : B.invalid = true <;> simp [hB]
 
-theorem findBlock_mem {f : Func} {b : BlockId} {B : Block} (h : f.findBlock b = some B) :
-    B ∈ f.blocks ∧ B.id = b ∧ B.invalid = false := by
-  simp only [Func.findBlock] at h
-  have h1 := List.mem_of_find?_eq_some h
-  have h2 := List.find?_some h
-  simp only [decide_eq_true_eq] at h2
-  exact ⟨h1, h2.1, by simpa using h2.2⟩
-
 theorem instrs_valid {f : Func} {B : Block} (hB : B ∈ f.blocks) (hv : B.invalid = false) :
     ∀ i ∈ B.instrs, i ∈ f.validInstrs := by
   intro i hi
